@@ -67,6 +67,9 @@ func GenC06(t *rapid.T) ScriptCase {
 			st.Msg = genRequest(t, true)
 			st.TagSel = rapid.IntRange(0, len(tagUniverse)-1).Draw(t, "tagsel")
 			st.Dup = rapid.IntRange(0, 5).Draw(t, "dup") == 0
+			if st.Dup && rapid.IntRange(0, 2).Draw(t, "dupflush") == 0 {
+				st.Msg = refwire.Msg{Kind: refwire.Tflush}
+			}
 		case "complete":
 			genResult(t, resultKinds, &st)
 		}
